@@ -194,6 +194,30 @@ def objects(fs, rng, limit_per_type=2):
 CSUM_ERRORS = set(range(2133571328 + 140, 2133571328 + 175))     # the *_CSUM_INVALID / BAD_CRC family sits in this band
 
 
+def uninit_meta_suffix(fs, typ, base, off, bit):
+    """A block-bitmap bit that stands for a bitmap or inode-table block of a BLOCK_UNINIT group (flex_bg puts those
+    blocks into another group's range): libext2fs sets such bits again after loading the bitmaps, so the reader never
+    sees the flipped value.  Named apart so that the finding which lists it cannot hide any other accepted flip."""
+    if typ != "block_bitmap":
+        return ""
+    try:
+        bs = fs.block_size
+        g = next(g for g in range(fs.group_count) if fs.group_desc(g)["bg_block_bitmap"] * bs == base)
+        first = fs.first_data_block + g * fs.blocks_per_group + (off * 8 + bit) * fs.cluster_ratio
+        blocks = set(range(first, first + fs.cluster_ratio))
+        for u in range(fs.group_count):
+            if not fs.group_flags(u) & 2:
+                continue
+            gd = fs.group_desc(u)
+            meta = set([gd["bg_block_bitmap"], gd["bg_inode_bitmap"]]) | \
+                set(range(gd["bg_inode_table"], gd["bg_inode_table"] + fs.itable_blocks))
+            if blocks & meta:
+                return "|uninit_group_meta"
+    except Exception:
+        pass
+    return ""
+
+
 class C14(Check):
     pid = "C14"
     level = "exploration"
@@ -449,7 +473,8 @@ class C14(Check):
                           (desc, h.out.decode("latin1").strip().replace("\n", "; "), where), skey="detect|library")
                 return
             if rn.status == 0:
-                o.violate("detect|e2fsck_accepts|%s" % typ, "%s flipped: e2fsck -fn exits 0 (problem codes %s): %s" %
+                o.violate("detect|e2fsck_accepts|%s%s" % (typ, uninit_meta_suffix(fs, typ, base, off, bit)),
+                          "%s flipped: e2fsck -fn exits 0 (problem codes %s): %s" %
                           (desc, ["%#x" % c for c in cn[:5]], where), skey="detect|e2fsck")
                 return
             o.stats["probe.flip_detected"] += 1
